@@ -691,7 +691,7 @@ Definition stored_ok (c : call) : Prop :=
 
 Lemma run_no_panic : forall c, stored_ok c -> run c <> Panic.
 Proof.
-  intros [cur rv|cur rv p k|cur rv s k|cur rv p|cur fin p|cur n vs ms|cur vs|fc o u|cur n vs ms cost|cur n vs ms] St; cbn [run].
+  intros [cur rv|cur rv p k|cur rv s k|cur rv p|cur fin p|cur n vs ms|cur vs|fc o u|cur n vs ms cost coll|cur n vs ms] St; cbn [run].
   - pose proof (validate_std_no_panic cur rv). destruct (validate_std cur rv); cbn [bind]; congruence.
   - pose proof (validate_revision_no_panic cur rv p k). destruct (validate_revision cur rv p k); cbn [bind]; congruence.
   - pose proof (validate_program_no_panic cur rv s k). destruct (validate_program cur rv s k); cbn [bind]; congruence.
@@ -702,8 +702,8 @@ Proof.
   - discriminate.
   - unfold bad. destruct (rnum cur =? max64); [discriminate|].
     pose proof (revise_no_panic cur n vs ms). destruct (revise cur n vs ms) as [r| |]; cbn [bind]; try congruence.
-    pose proof (validate_revision_no_panic cur r cost 0).
-    destruct (validate_revision cur r cost 0); cbn [bind]; congruence.
+    pose proof (validate_revision_no_panic cur r cost coll).
+    destruct (validate_revision cur r cost coll); cbn [bind]; congruence.
   - cbn [stored_ok] in St.
     pose proof (revise_no_panic cur n vs ms). destruct (revise cur n vs ms) as [r| |] eqn:Er; cbn [bind]; try congruence.
     apply revise_sound in Er as (_ & _ & _ & _ & _ & (_ & _ & _ & _ & _ & Ha) & _).
